@@ -12,7 +12,10 @@
    metrics the status reporter keeps (state_machine/status_reporter.rs: peer_up,
    peer_down, pending_eors_update, bgp_update_parse_{soft,hard}_fail). [rl_apply]
    is the effect of one BMP message on those numbers; it is what the engine c12rl
-   feeds to the REAL state machine. *)
+   feeds to the REAL state machine. A message about a peer that is not up (and a
+   second Peer Up of one that is) is counted as unprocessable ("hard" failure) and
+   changes nothing else - observed on the real state machine; the generator does
+   not produce such messages, the case shrinker does. *)
 From Coq Require Import NArith List Bool.
 From RV Require Import Http.DispatchText Http.DispatchModel.
 Import ListNotations.
@@ -45,12 +48,17 @@ Definition rl_apply (st : rstate) (e : revent) : rstate :=
   | RInitiating, EvInit => RUp [] 0 0
   | RInitiating, _ => RInitiating
   | RUp ps s h, EvInit => RUp ps s h
-  | RUp ps s h, EvPeerUp i eor => if has_peer i ps then RUp ps s h else RUp (ps ++ [MkPeer i eor false]) s h
+  | RUp ps s h, EvPeerUp i eor => if has_peer i ps then RUp ps s (h + 1) else RUp (ps ++ [MkPeer i eor false]) s h
   | RUp ps s h, EvAnnounce i =>
-      RUp (map (fun p => if (pr_id p =? i) && pr_eor p then MkPeer (pr_id p) true true else p) ps) s h
+      if has_peer i ps then
+        RUp (map (fun p => if (pr_id p =? i) && pr_eor p then MkPeer (pr_id p) true true else p) ps) s h
+      else RUp ps s (h + 1)
   | RUp ps s h, EvEor i =>
-      RUp (map (fun p => if pr_id p =? i then MkPeer (pr_id p) (pr_eor p) false else p) ps) s h
-  | RUp ps s h, EvPeerDown i => RUp (filter (fun p => negb (pr_id p =? i)) ps) s h
+      if has_peer i ps then
+        RUp (map (fun p => if pr_id p =? i then MkPeer (pr_id p) (pr_eor p) false else p) ps) s h
+      else RUp ps s (h + 1)
+  | RUp ps s h, EvPeerDown i =>
+      if has_peer i ps then RUp (filter (fun p => negb (pr_id p =? i)) ps) s h else RUp ps s (h + 1)
   | RUp ps s h, EvSoft => RUp ps (s + 1) h
   | RUp ps s h, EvHard => RUp ps s (h + 1)
   end.
